@@ -23,6 +23,13 @@ The same (explicit schedule, preemption set, fuel) is given to the Lean model `C
 (entry `c19.run`), and the explicit schedule actually executed, the write trace per logical thread, the final
 program counters, the terminal line after every write and the liveness of the spinner when the block is
 left are compared.  Manual (thread-free) mode: entry `c19.manual` over call sequences and clock advances.
+
+What the indicator is BUILT ON is a dimension of every mode (`cfg["on"]`): an Output, or an IO whose standard output
+and error output are configured individually (ANSI capability, verbosity, quiet; also one Output object for both), with
+or without a format given to the constructor (`cfg["fmt"]` null: the component chooses).  The frames are drawn on the
+error output of an I/O; they must be well-formed for THAT output, and nothing may reach the standard output.  The
+model (Model/SpinnerBuilt.lean) is told what the indicator was built on and decides the output drawn on and the format
+itself.  Verbose formats (elapsed time) and quiet outputs are outside the model: mode `elapsed`, oracle only.
 """
 import itertools
 import sys
@@ -46,7 +53,13 @@ LEVEL_TEXT = ("For the model of auto()/_spin/advance/set_message/finish (one sch
               "component under a deterministic scheduler on complete enumerations of schedules up to a preemption bound and "
               "random schedules, comparing executed schedule, write traces, final program counters and terminal lines; the "
               "hypotheses of the theorems about the configuration (no CR/LF/ESC, an indicator value) are decided by the model on "
-              "every case (wf_decides).")
+              "every case (wf_decides). What the indicator is BUILT ON is part of the model (Model/SpinnerBuilt.lean): an Output, or "
+              "an I/O whose standard output and error output differ in ANSI capability, verbosity, quiet; built on an I/O it is "
+              "the indicator built on the error output of that I/O (built_on_io_eq_error_output, built_ignores_standard_output), "
+              "and when no format is given every frame is, for the output it is DRAWN on, an indicator value followed by the "
+              "current message (ANSI-capable) or the message on a line of its own (plain), manual mode and under every schedule "
+              "(built_frame_shape, built_frame_shape_auto; the formats are the literals of the source, formats_from_source). The "
+              "model is told what the real indicator was built on and decides the drawn-on output and the format itself.")
 LEVEL_NOTE = ("Trusted: Lean kernel + propext/Quot.sound/Classical.choice, the deterministic scheduler and terminal emulator of "
               "harness/props/c19.py, CPython's GIL-level atomicity of attribute reads/writes. Not exhibited: preemption inside "
               "one stream write, interleavings below the granularity of a visible operation (bytecode level), memory-model "
@@ -58,7 +71,10 @@ REQUIRED_THEOREMS = ["Clikit.Props.C19." + n for n in (
     "spinner_stops_within", "never_stuck", "end_message_last", "end_message_shown", "advance_throttled", "frame_shape",
     "Counter.c19_mixture_old", "Counter.c19_uncaught_leaves_spinner_running_old", "source_shape",
     "wf_decides", "cleanCfgB_iff", "no_mixture_decided", "frame_shape_auto_decided", "end_message_shown_decided",
-    "frame_shape_decided", "spinner_stops_within_rank")]
+    "frame_shape_decided", "spinner_stops_within_rank",
+    # what the indicator is built on (Model/SpinnerBuilt.lean)
+    "formats_from_source", "built_on_io_eq_error_output", "built_ignores_standard_output", "built_cfg",
+    "built_frame_shape", "built_frame_shape_auto", "format_of_standard_output_differs")]
 RULE = ("auto mode: (a) for each of 10 main programs (empty body, set_message while spinning, two messages, body raises, "
         "set then KeyboardInterrupt, early exit, raise at once, messages with blanks/braces, SystemExit after work, "
         "set then SystemExit) x configurations (ANSI, plain, "
@@ -67,7 +83,12 @@ RULE = ("auto mode: (a) for each of 10 main programs (empty body, set_message wh
         "of the run length; (c) random programs/configurations with random explicit schedules (thread choices and arbitrary clock "
         "advances, disabled choices are no-ops) followed by the policy with random preemptions; manual mode: (b) all call "
         "sequences of length 4 (quick) / 5 (thorough) over {advance, set_message, tick 50, tick 100, finish, start} after start, "
-        "plus random sequences. non-trivial = the spinner thread took at least one step (auto) / something was written (manual); "
+        "plus random sequences; (a'), (b') the indicator built on 12 kinds of object (an Output, an I/O with equal outputs, one "
+        "Output object for both channels, an I/O whose standard output differs from the error output in ANSI capability / "
+        "verbosity / quiet) with no format given (and three with a format): three programs x all schedules with <= 1 (quick) / 2 "
+        "forced switches, all manual call sequences of length 3 (quick) / 4; 35 % of the random configurations are built on one "
+        "of these; (d) oracle only: the `{elapsed}` placeholder, and indicators without a format on all ordered pairs of "
+        "(standard, error) outputs over ANSI x verbosity {0,1,4} x quiet (verbose formats, quiet outputs). non-trivial = the spinner thread took at least one step (auto) / something was written (manual); "
         "distinct = distinct (configuration, program, explicit schedule actually executed)")
 TRUSTED_BASE = [
     "Lean 4.33 kernel; axioms propext, Classical.choice, Quot.sound only (audited per theorem on every run)",
@@ -85,8 +106,12 @@ ASSUMPTIONS = [
     "messages, indicator values and format literals contain no CR/LF/ESC (hypothesis CleanCfg of no_mixture / end_message_shown) "
     "and there is an indicator value (hypothesis of the frame-shape theorems): both are DECIDED by the model on the configuration "
     "of every case (answer key `wf`, theorem wf_decides) and compared with true; no style tags in messages (not a hypothesis of a "
-    "theorem: a tag would show up as a disagreement of the write traces); quiet outputs and the {elapsed} placeholder are outside "
-    "the model",
+    "theorem: a tag would show up as a disagreement of the write traces); a quiet output to draw on and the {elapsed} placeholder "
+    "(hence the formats chosen for a verbose output) are outside the model: those cases (mode `elapsed`) are judged by the "
+    "oracle alone - nothing reaches a quiet output, every frame follows the documented format for the output it is drawn on",
+    "built on an I/O: the model knows the two outputs by what the component can ask them (ANSI support, verbosity, quiet); "
+    "the oracle takes as the format of an indicator that was given none the documented one for the output the frames are "
+    "drawn on (NORMAL where the line is redrawn in place, NORMAL_NO_ANSI where every frame is a line of its own)",
     "time.time()*1000 rounds to the virtual millisecond exactly; the spinner period 0.1 s is 100 virtual ms",
     "bodies raise Exception, KeyboardInterrupt or SystemExit (SystemExit stands for every other BaseException kind); "
     "D32 (spinner left running after SystemExit) is repaired in the repository: the oracle demands the join for every "
@@ -426,15 +451,52 @@ def fmt_string(segs):
     return "".join(out)
 
 
-def _component(cfg, on_write, fake_threading, fake_time):
-    import clikit.ui.components.progress_indicator as pim
+def caps(ansi=True, verbosity=0, quiet=False):
+    """what the component can ask an output about"""
+    return {"ansi": bool(ansi), "verbosity": verbosity, "quiet": bool(quiet)}
+
+
+def drawn_caps(cfg):
+    """the capabilities of the output the frames are DRAWN on: the output the indicator was built on, or the error
+    output of the I/O it was built on.  `on` absent: an Output at normal verbosity, not quiet (the earlier cases)."""
+    on = cfg.get("on")
+    if not on:
+        return caps(cfg["ansi"])
+    return on["err"] if on["io"] else on["out"]
+
+
+def _output(c, on_write):
     from clikit.api.io.output import Output
     from clikit.formatter import AnsiFormatter, PlainFormatter
-    ansi = cfg["ansi"]
-    out = Output(_Stream(on_write, ansi), AnsiFormatter(forced=True) if ansi else PlainFormatter())
+    out = Output(_Stream(on_write, c["ansi"]), AnsiFormatter(forced=True) if c["ansi"] else PlainFormatter())
+    out.set_verbosity(c["verbosity"])
+    out.set_quiet(c["quiet"])
+    return out
+
+
+def build_on(cfg, on_write, std_write):
+    """the constructor argument `io`: an Output, or an IO whose two outputs are configured individually (standard
+    output and error output may differ in ANSI capability, verbosity and quiet; `merged`: one Output object for both)"""
+    on = cfg.get("on")
+    if not on:
+        return _output(caps(cfg["ansi"]), on_write)
+    if not on["io"]:
+        return _output(on["out"], on_write)
+    from clikit.api.io import IO, Input
+    from clikit.io.input_stream.string_input_stream import StringInputStream
+    err = _output(on["err"], on_write)
+    std = err if on.get("merged") else _output(on["std"], std_write)
+    return IO(Input(StringInputStream("")), std, err)
+
+
+def _component(cfg, on_write, fake_threading, fake_time, std_write=None):
+    import clikit.ui.components.progress_indicator as pim
+    target = build_on(cfg, on_write, std_write if std_write is not None else (lambda s: None))
     pim.threading = fake_threading
     pim.time = fake_time
-    pi = pim.ProgressIndicator(out, fmt=fmt_string(cfg["fmt"]), interval=cfg["interval"], values=list(cfg["values"]))
+    # `fmt` None: the component chooses the format itself
+    pi = pim.ProgressIndicator(target, fmt=fmt_string(cfg["fmt"]) if cfg["fmt"] is not None else None,
+                               interval=cfg["interval"], values=list(cfg["values"]))
     return pim, pi
 
 
@@ -449,7 +511,8 @@ def run_auto(case):
 
     import clikit.ui.components.progress_indicator as pim
     saved = (pim.threading, pim.time)
-    pim_, pi = _component(cfg, on_write, ft, ftime)
+    std_writes = []
+    pim_, pi = _component(cfg, on_write, ft, ftime, std_writes.append)
     info = {"alive_at_exit": None}
 
     def main():
@@ -506,6 +569,7 @@ def run_auto(case):
         "alive_at_exit": info["alive_at_exit"],
         "clock": sched.clock,
         "leaked": leaked,
+        "std_writes": std_writes,      # what reached the STANDARD output of an I/O the indicator was built on
     }
 
 
@@ -516,7 +580,8 @@ def run_manual(case):
     import clikit.ui.components.progress_indicator as pim
     saved = (pim.threading, pim.time)
     try:
-        pim_, pi = _component(cfg, writes.append, FakeThreading(None), mt)
+        std_writes = []
+        pim_, pi = _component(cfg, writes.append, FakeThreading(None), mt, std_writes.append)
         outs = []
         for op in case["ops"]:
             n0, err = len(writes), None
@@ -540,23 +605,21 @@ def run_manual(case):
             outs.append({"writes": writes[n0:], "err": err, "clock": mt.clock})
     finally:
         pim.threading, pim.time = saved
-    return {"ops": outs}
+    return {"ops": outs, "std_writes": std_writes}
 
 
 def run_elapsed(case):
-    """manual mode with the `{elapsed}` placeholder (outside the Lean model): the frames of a long-running block"""
+    """manual mode outside the Lean model: the `{elapsed}` placeholder / the verbose formats the component chooses itself
+    over short and long blocks, and quiet outputs.  `on` (optional): what the indicator is built on, as in `cfg`."""
     import clikit.ui.components.progress_indicator as pim
-    from clikit.api.io.output import Output
-    from clikit.formatter import AnsiFormatter, PlainFormatter
     mt = ManualTime()
-    writes = []
+    writes, std_writes = [], []
     saved = (pim.threading, pim.time)
     try:
         pim.threading, pim.time = FakeThreading(None), mt
-        ansi = case["ansi"]
-        out = Output(_Stream(writes.append, ansi), AnsiFormatter(forced=True) if ansi else PlainFormatter())
-        out.set_verbosity(case["verbosity"])
-        pi = pim.ProgressIndicator(out, fmt=case["fmt"], interval=100)
+        target = build_on({"ansi": case["ansi"], "on": case.get("on") or {"io": False, "out": caps(case["ansi"], case["verbosity"])}},
+                          writes.append, std_writes.append)
+        pi = pim.ProgressIndicator(target, fmt=case["fmt"], interval=100)
         outs = []
         steps = [("start", 0)] + [("advance", dt) for dt in case["ticks"]] + [("finish", 0)]
         for what, dt in steps:
@@ -574,7 +637,7 @@ def run_elapsed(case):
             outs.append({"what": what, "dt": dt, "writes": writes[n0:], "err": err})
     finally:
         pim.threading, pim.time = saved
-    return {"steps": outs}
+    return {"steps": outs, "std_writes": std_writes}
 
 
 def run_impl(case):
@@ -589,7 +652,9 @@ def run_impl(case):
 # Lean model
 # ------------------------------------------------------------------------------------------------
 def _mcfg(cfg):
-    return dict(cfg)      # the model takes the spinner's period from the source (Gen/C19.lean)
+    # the model takes the spinner's period from the source (Gen/C19.lean); with `on` it is told what the indicator is
+    # built on and decides itself which output the frames are drawn on and (fmt null) which format is chosen
+    return dict(cfg)
 
 
 def model_requests(case):
@@ -608,8 +673,9 @@ def model_obs(case, answers):
     if case["mode"] == "auto":
         return {"status": a["status"], "executed": a["executed"], "writes": a["writes"], "lines": a["lines"],
                 "pcs": a["pcs"], "main_outcome": a["main_outcome"], "spin_crashed": a["crashed"],
-                "alive_at_exit": a["alive_at_exit"], "clock": a["clock"], "wf": a["wf"]}
-    return {"ops": [{"writes": o["writes"], "err": o["err"]} for o in a["ops"]], "lines": a["lines"], "wf": a["wf"]}
+                "alive_at_exit": a["alive_at_exit"], "clock": a["clock"], "wf": a["wf"], "std_writes": []}
+    return {"ops": [{"writes": o["writes"], "err": o["err"]} for o in a["ops"]], "lines": a["lines"], "wf": a["wf"],
+            "std_writes": []}       # the model draws on ONE output: nothing ever reaches the standard output of an I/O
 
 
 def impl_view(case, obs):
@@ -623,10 +689,10 @@ def impl_view(case, obs):
                 "alive_at_exit": obs["alive_at_exit"], "clock": obs["clock"],
                 # the hypotheses of the theorems (CleanCfg, an indicator value exists) must hold for the configuration
                 # the real component was built from: decided by the model (Props.C19.wf_decides), expected true
-                "wf": {"clean": True, "has_values": True}}
+                "wf": {"clean": True, "has_values": True}, "std_writes": obs["std_writes"]}
     return {"ops": [{"writes": o["writes"], "err": o["err"]} for o in obs["ops"]],
             "lines": term_lines([w for o in obs["ops"] for w in o["writes"]]),
-            "wf": {"has_values": True}}
+            "wf": {"has_values": True}, "std_writes": obs["std_writes"]}
 
 
 # ------------------------------------------------------------------------------------------------
@@ -674,8 +740,17 @@ def term_lines(writes):
     return out
 
 
+def fmt_of(cfg):
+    """the format the frames must follow: the one given to the constructor; when none was given, the documented format
+    for the output the frames are DRAWN on (the output itself / the error output of an I/O): indicator and message
+    where the line is redrawn in place, the message alone where every frame is a line of its own"""
+    if cfg["fmt"] is not None:
+        return cfg["fmt"]
+    return NORMAL_FMT if drawn_caps(cfg)["ansi"] else PLAIN_FMT
+
+
 def render(cfg, v, m):
-    return "".join(v if s == "I" else m if s == "M" else s[1] for s in cfg["fmt"])
+    return "".join(v if s == "I" else m if s == "M" else s[1] for s in fmt_of(cfg))
 
 
 def frames_of(cfg, messages):
@@ -688,6 +763,8 @@ def oracle_auto(case, obs):
         return "a thread never came back to a scheduling point (watchdog): status=%s" % obs["status"]
     messages = [cfg["start"], cfg["end"]] + [op[1] for op in case["body"] if op[0] == "set"]
     frames = frames_of(cfg, messages)
+    if obs["std_writes"]:
+        return "the indicator wrote %r to the STANDARD output of the I/O it was built on" % "".join(obs["std_writes"])[:80]
     # (1) the terminal line never shows a mixture of two frames
     t = Terminal()
     for k, (tid, w) in enumerate(obs["writes"]):
@@ -727,6 +804,8 @@ def oracle_manual(case, obs):
     interval = cfg["interval"]
     message, last_redraw = None, None
     t = Terminal()
+    if obs["std_writes"]:
+        return "the indicator wrote %r to the STANDARD output of the I/O it was built on" % "".join(obs["std_writes"])[:80]
     for op, o in zip(case["ops"], obs["ops"]):
         if o["err"] not in (None, "RuntimeError"):
             return "%s raised %s" % (op[0], o["err"])
@@ -760,15 +839,46 @@ def oracle_manual(case, obs):
 
 
 def oracle_elapsed(case, obs):
+    import re
+    on = case.get("on")
+    d = (on["err"] if on["io"] else on["out"]) if on else caps(case["ansi"], case["verbosity"])
+    if obs["std_writes"]:
+        return "the indicator wrote %r to the STANDARD output of the I/O it was built on" % "".join(obs["std_writes"])[:80]
     for st in obs["steps"]:
         if st["err"] is not None:
             return "%s() %d ms later raised %s (format %r, verbosity %d)" % (st["what"], st["dt"], st["err"],
-                                                                         case["fmt"], case["verbosity"])
+                                                                         case["fmt"], d["verbosity"])
+    if d["quiet"]:
+        # a quiet output shows nothing at all
+        for st in obs["steps"]:
+            if st["writes"]:
+                return "%s() wrote %r to a quiet output" % (st["what"], "".join(st["writes"])[:80])
+        return None
+    for st in obs["steps"]:
         if st["what"] in ("start", "finish") and not "".join(st["writes"]).strip():
             return "%s() drew nothing" % st["what"]
     last = "".join(obs["steps"][-1]["writes"])
     if "done" not in last:
         return "the end message is not in the last frame: %r" % last
+    if case["fmt"] is None:
+        # no format given: every frame follows the documented format for the output it is DRAWN on - an indicator value
+        # and the message where the line is redrawn in place, the message alone where every frame is a line of its own,
+        # followed by the elapsed time in brackets when that output is verbose
+        t = Terminal()
+        for st in obs["steps"]:
+            n0 = len(t.done)
+            for w in st["writes"]:
+                t.feed(w)
+            shown = [l for l in t.done[n0:] if l != ""] + ([t.current()] if t.current() != "" else [])
+            msg = "done" if st["what"] == "finish" else "working"
+            want = " " + ("(?:%s) " % "|".join(re.escape(v) for v in DEFAULT_VALUES) if d["ansi"] else "") + msg + \
+                   (r" \([^()]+\)" if d["verbosity"] >= 1 else "")
+            for line in shown:
+                if not re.fullmatch(want, line):
+                    return ("%s() left %r on the terminal: not %s the message %r%s (the frames are drawn on an output that is "
+                            "%s, verbosity %d)" % (st["what"], line, "an indicator value followed by" if d["ansi"] else "just",
+                                                   msg, " and the elapsed time" if d["verbosity"] >= 1 else "",
+                                                   "ANSI-capable" if d["ansi"] else "plain", d["verbosity"]))
     return None
 
 
@@ -802,9 +912,41 @@ POOL = [
 ]
 
 
-def mkcfg(ansi=True, interval=100, values=None, fmt=None, start="Working", end="Done"):
-    return {"ansi": ansi, "interval": interval, "values": list(values or DEFAULT_VALUES),
-            "fmt": fmt or (NORMAL_FMT if ansi else PLAIN_FMT), "start": start, "end": end}
+def mkcfg(ansi=True, interval=100, values=None, fmt=None, start="Working", end="Done", on=None, auto_fmt=False):
+    """`on`: what the indicator is built on (absent: an Output with capability `ansi`); `ansi` is then the capability of
+    the output the frames are drawn on.  `auto_fmt`: no format is given to the constructor (`fmt` null)."""
+    if on:
+        ansi = (on["err"] if on["io"] else on["out"])["ansi"]
+    cfg = {"ansi": ansi, "interval": interval, "values": list(values or DEFAULT_VALUES),
+           "fmt": None if auto_fmt else (fmt or (NORMAL_FMT if ansi else PLAIN_FMT)), "start": start, "end": end}
+    if on:
+        cfg["on"] = on
+    return cfg
+
+
+def on_output(c):
+    return {"io": False, "out": c}
+
+
+def on_io(std, err, merged=False):
+    return {"io": True, "std": err if merged else std, "err": err, "merged": bool(merged)}
+
+
+# what the indicator is built on, for the cases compared with the model: the output the frames are drawn on is at normal
+# verbosity and not quiet (the verbose formats show the elapsed time, a quiet output shows nothing: both are judged by
+# the oracle alone, see _elapsed_cases); the STANDARD output of an I/O is anything
+ON_POOL = [
+    on_output(caps(True)), on_output(caps(False)),
+    on_io(caps(True), caps(True)), on_io(caps(False), caps(False)),
+    on_io(caps(False), caps(True)),            # `prog > out.txt` on a terminal: frames on the ANSI-capable error output
+    on_io(caps(True), caps(False)),            # `prog 2> err.txt`
+    on_io(caps(True, 1), caps(True)), on_io(caps(False, 4), caps(True)), on_io(caps(True, 2), caps(False)),
+    on_io(caps(True, 0, True), caps(True)),    # outputs configured individually: the standard output alone is quiet
+    on_io(None, caps(True), merged=True), on_io(None, caps(False), merged=True),
+]
+ON_CONFIGS = [mkcfg(on=on, auto_fmt=True) for on in ON_POOL] + \
+             [mkcfg(on=ON_POOL[4], interval=0, values=["a", "bb"], auto_fmt=True),
+              mkcfg(on=ON_POOL[5], interval=250, fmt=ALT_FMT), mkcfg(on=ON_POOL[7], fmt=ALT_FMT)]
 
 
 CONFIGS = [mkcfg(), mkcfg(ansi=False), mkcfg(interval=0, values=["a", "bb"]), mkcfg(interval=250, fmt=ALT_FMT)]
@@ -843,8 +985,11 @@ def random_cfg(rng):
     ansi = rng.random() < 0.8
     values = rng.choice([DEFAULT_VALUES, ["a", "bb"], [".", "o", "O"], ["", "*"]])
     fmt = rng.choice([None, None, ALT_FMT, ["M", ["L", " "], "I"]])
+    # what the indicator is built on: an Output as before, or one of ON_POOL (an Output / an I/O whose outputs differ),
+    # with or without a format given to the constructor
+    on = rng.choice(ON_POOL) if rng.random() < 0.35 else None
     return mkcfg(ansi=ansi, interval=rng.choice([0, 50, 100, 100, 150, 250]), values=values, fmt=fmt,
-                 start=rng.choice(MESSAGES), end=rng.choice(MESSAGES))
+                 start=rng.choice(MESSAGES), end=rng.choice(MESSAGES), on=on, auto_fmt=bool(on) and rng.random() < 0.7)
 
 
 def random_schedule(rng):
@@ -908,6 +1053,27 @@ def _enumeration(tier):
                 yield auto_case(cfg, body, ["M"] * a + [["T", 700]] + ["M"] * 12 + [["T", 700]] + ["M"] * 12, ())
 
 
+def _enumeration_on(tier):
+    """the indicator built on every kind of object (ON_CONFIGS), no format given: the programs that draw from both
+    threads, all schedules with at most 1 (quick) / 2 (thorough) forced context switches"""
+    bound = 1 if tier == "quick" else 2
+    for name, body in POOL:
+        if name not in ("set-while-spinning", "raises", "two-messages"):
+            continue
+        n = steps_bound(body)
+        for cfg in ON_CONFIGS:
+            for b in range(bound + 1):
+                for pre in itertools.combinations(range(n), b):
+                    yield auto_case(cfg, body, (), pre)
+
+
+def _manual_on(depth):
+    alphabet = [["advance"], ["set", "B"], ["tick", 100], ["finish", "E", True], ["start", "S2"]]
+    for cfg in ON_CONFIGS:
+        for seq in itertools.product(alphabet, repeat=depth):
+            yield {"mode": "manual", "cfg": cfg, "ops": [["start", "A"]] + [list(o) for o in seq]}
+
+
 def _random_auto(n, rng):
     for _ in range(n):
         body = rng.choice(POOL)[1] if rng.random() < 0.3 else random_body(rng)
@@ -922,6 +1088,9 @@ def generate(tier, rng):
         _enumeration(tier),
         # (b) manual mode: all call sequences of a small alphabet
         manual_exhaustive(4 if tier == "quick" else 5),
+        # (a'), (b') the same on indicators built on an Output / on an I/O whose outputs differ, choosing their format
+        _enumeration_on(tier),
+        _manual_on(3 if tier == "quick" else 4),
         # (c) random programs, configurations and explicit schedules (arbitrary clock advances), random preemptions after
         _random_auto(n_random, rng),
         (random_manual(rng) for _ in range(n_random // 2)),
@@ -945,14 +1114,36 @@ def _elapsed_cases():
             for fmt in fmts:
                 for ticks in tick_lists:
                     yield {"mode": "elapsed", "ansi": ansi, "verbosity": verbosity, "fmt": fmt, "ticks": ticks}
+    # no format given, the indicator built on an I/O whose outputs differ in ANSI capability, verbosity, quiet: the frames
+    # follow the output they are drawn on (the error output)
+    kinds = [caps(a, v, q) for a in (True, False) for v in (0, 1, 4) for q in (False, True)]
+    for err in kinds:
+        for std in kinds:
+            if std == err or (std["quiet"] and std["verbosity"]):
+                continue
+            for ticks in ([50, 120], [2500, 100], [100, 100, 100, 2100]):
+                yield {"mode": "elapsed", "ansi": err["ansi"], "verbosity": err["verbosity"], "fmt": None, "ticks": ticks,
+                       "on": on_io(std, err)}
+        yield {"mode": "elapsed", "ansi": err["ansi"], "verbosity": err["verbosity"], "fmt": None, "ticks": [50, 120, 2500],
+               "on": on_output(err)}
+        yield {"mode": "elapsed", "ansi": err["ansi"], "verbosity": err["verbosity"], "fmt": None, "ticks": [50, 120, 2500],
+               "on": on_io(None, err, merged=True)}
 
 
 def exhaustive(tier):
     return False
 
 
+def _on_key(on):
+    if not on:
+        return ""
+    c = lambda x: "%d%d%d" % (x["ansi"], x["verbosity"], x["quiet"])  # noqa: E731
+    return ("io:" + ("merged:" if on.get("merged") else c(on["std"]) + ":") + c(on["err"])) if on["io"] else "out:" + c(on["out"])
+
+
 def _cfg_key(cfg):
-    return (cfg["ansi"], cfg["interval"], tuple(cfg["values"]), fmt_string(cfg["fmt"]), cfg["start"], cfg["end"])
+    return (cfg["ansi"], cfg["interval"], tuple(cfg["values"]), fmt_string(cfg["fmt"]) if cfg["fmt"] is not None else None,
+            cfg["start"], cfg["end"], _on_key(cfg.get("on")))
 
 
 def _sched_key(executed):
@@ -961,7 +1152,7 @@ def _sched_key(executed):
 
 def nontrivial_key(case, obs):
     if case["mode"] == "elapsed":
-        return ("elapsed", case["ansi"], case["verbosity"], case["fmt"], str(case["ticks"]))
+        return ("elapsed", case["ansi"], case["verbosity"], case["fmt"], str(case["ticks"]), _on_key(case.get("on")))
     if case["mode"] == "auto":
         # non-trivial: the spinner thread took steps, i.e. there was something to interleave
         if "S" not in obs["executed"] or obs["pcs"]["S"] == "notStarted":
@@ -974,21 +1165,45 @@ def nontrivial_key(case, obs):
 
 def bucket(case, obs):
     if case["mode"] == "elapsed":
-        return "elapsed:%s:verbosity=%d" % ("ansi" if case["ansi"] else "plain", case["verbosity"])
+        return "elapsed:%s:verbosity=%d%s" % ("ansi" if case["ansi"] else "plain", case["verbosity"], _on_bucket(case.get("on")))
     if case["mode"] == "auto":
         sw = 0
         ex = [c for c in obs["executed"] if c in ("M", "S")]
         for a, b in zip(ex, ex[1:]):
             sw += a != b
-        return "auto:%s:%s:%s:switches=%s:spinner-frames=%s" % (
-            "ansi" if case["cfg"]["ansi"] else "plain", obs["status"], obs["main_outcome"],
+        return "auto:%s%s:%s:%s:switches=%s:spinner-frames=%s" % (
+            "ansi" if case["cfg"]["ansi"] else "plain", _on_bucket(case["cfg"].get("on")), obs["status"], obs["main_outcome"],
             "0-3" if sw < 4 else "4-7" if sw < 8 else "8+",
             min(3, sum(1 for w in obs["writes"] if w[0] == "S")))
     errs = sum(1 for o in obs["ops"] if o["err"])
-    return "manual:%s:ops=%d:errors=%d" % ("ansi" if case["cfg"]["ansi"] else "plain", len(case["ops"]) // 4 * 4, min(errs, 3))
+    return "manual:%s%s:ops=%d:errors=%d" % ("ansi" if case["cfg"]["ansi"] else "plain", _on_bucket(case["cfg"].get("on")),
+                                             len(case["ops"]) // 4 * 4, min(errs, 3))
+
+
+def _on_bucket(on):
+    if not on:
+        return ""
+    if not on["io"]:
+        return ":built on an Output"
+    if on.get("merged") or on["std"] == on["err"]:
+        return ":built on an I/O with equal outputs"
+    return ":built on an I/O whose outputs differ"
+
+
+def _simpler_on(cfg):
+    """the same indicator built on something simpler (same output to draw on): the I/O replaced by its error output,
+    the format the component would choose given explicitly"""
+    on = cfg.get("on")
+    if on and on["io"]:
+        yield dict(cfg, on=on_output(on["err"]))
+    if on and cfg["fmt"] is None:
+        yield dict(cfg, fmt=fmt_of(cfg))
 
 
 def shrink(case):
+    if case["mode"] in ("auto", "manual"):
+        for c2 in _simpler_on(case["cfg"]):
+            yield dict(case, cfg=c2)
     if case["mode"] == "auto":
         for i in range(len(case["sched"])):
             c = dict(case)
